@@ -14,6 +14,7 @@ snapshot = st amp mix interp dsp flags cflags smpctl volume smixVol defpan mode 
 Output, one line per call:
 `r <seq> <k> <fname> <stBefore> <cellClass> <agree> <specReal> <specModel> <envOk> <fault> <detail…>`
 * agree     model (run from the model's own state since `seq`) = real: return value and snapshot
+            (in a cell where two refusal conditions hold, either documented code is accepted)
 * specReal  `Spec.ok` on the real observations (state before, return, state after)
 * specModel `Spec.ok` on the model's prediction
 * envOk     the assumed ranges of externally decided inputs hold
@@ -152,8 +153,12 @@ partial def loop (h : IO.FS.Stream) (d : Drv) : IO Unit := do
       | some env, some snap =>
         let ret := toI ret
         let r := step d.model call env
-        let agree := d.synced && r.ret == ret && r.state == snap && !r.fault
         let specReal := Spec.ok d.real.toObs call env ret snap.toObs
+        let cls0 := cellClass d.real.toObs call env ret
+        -- when two documented refusal conditions hold at once the documentation does not order them: a different
+        -- (allowed) error code with the same (absent) effect is not a disagreement
+        let agree := d.synced && !r.fault && r.state == snap &&
+                       (r.ret == ret || (cls0 == "state+invalid" && specReal))
         let specModel := Spec.ok d.model.toObs call env r.ret r.state.toObs
         let envOk := EnvOk d.real call env
         let cls := cellClass d.real.toObs call env ret
